@@ -653,7 +653,7 @@ func crashFrame(stderr string) string {
 			}
 		}
 		t := strings.TrimSpace(l)
-		if strings.HasPrefix(t, "/repo/") {
+		if strings.HasPrefix(t, core.RepoDir()+"/") {
 			return msg + " " + strings.Fields(t)[0]
 		}
 	}
